@@ -97,7 +97,15 @@ def project_dim(dimension):
 
 
 def classify(scale):
-    """Real scale factor -> (class, Fraction or None)."""
+    """Real scale factor -> (class, Fraction or None); 'other' for anything that is not a real number
+    (also when SymPy itself fails on the returned object)."""
+    try:
+        return _classify(scale)
+    except Exception:  # pylint: disable=broad-except
+        return "other", None
+
+
+def _classify(scale):
     import sympy as sp
     if scale is sp.nan or scale == sp.nan:
         return "nan", None
@@ -112,6 +120,11 @@ def classify(scale):
     if getattr(scale, "is_Float", False):
         return "float", Fraction(float(scale))
     if scale.is_number and scale.is_finite and scale.is_real is not False:
+        if scale.atoms(sp.Float):            # Float * sqrt(1000): a floating-point number written as an expression
+            try:
+                return "float", Fraction(float(scale))
+            except (TypeError, ValueError):
+                return "other", None
         if scale.is_rational is False or not scale.is_Float:
             return "irr", None
     return "other", None
@@ -123,3 +136,15 @@ def to_si(scale, dimvec):
     import sympy as sp
     m = sp.Rational(dimvec[1][0], dimvec[1][1])
     return scale / sp.Integer(1000) ** m
+
+
+def s_(x) -> str:
+    """str() that never raises (SymPy cannot print some NaN-containing products)."""
+    try:
+        return str(x)
+    except Exception:  # pylint: disable=broad-except
+        try:
+            import sympy as sp
+            return sp.srepr(x)
+        except Exception:  # pylint: disable=broad-except
+            return "<unprintable>"
